@@ -215,6 +215,55 @@ def sym(c):
     return c.pick(c.assigned)
 
 
+def role_cols(c):
+    """columns ordered so that every column role is drawn: one column per datainfo type first (id, idv, dv, dose,
+    covariate, mdv/event, dropped, ...), then all columns"""
+
+    def f():
+        seen, first = set(), []
+        for ci in c.m.datainfo:
+            key = (ci.type, bool(ci.drop))
+            if key not in seen:
+                seen.add(key)
+                first.append(ci.name)
+        return first + [n for n in c.m.datainfo.names if n not in first]
+
+    return c._get('role_cols', f)
+
+
+def anycol(c):
+    """a column of any role: two draws out of three from the one-per-role list"""
+    rc = role_cols(c)
+    nroles = len({(ci.type, bool(ci.drop)) for ci in c.m.datainfo}) if rc else 0
+    if rc and c.k() % 3:
+        return c.pick(rc[: max(1, nroles)])
+    return c.pick(c.cols)
+
+
+def anycols(maxn=3):
+    def f(c):
+        n = 1 + c.k() % maxn
+        out = []
+        for _ in range(n):
+            x = anycol(c)
+            if x not in out:
+                out.append(x)
+        return out
+
+    return f
+
+
+def col_value(c, name):
+    """a value present in (or near) column `name`"""
+    try:
+        vals = sorted(set(float(v) for v in c.m.dataset[name].tolist() if v == v))
+        if vals:
+            return vals[c.k() % len(vals)]
+    except Exception:
+        pass
+    return float(1 + c.k() % 70)
+
+
 def ipar(c):
     return c.pick(c.ipars)
 
@@ -320,15 +369,17 @@ def expr_str(c):
 
 
 def filter_expr(c):
-    cl = c.pick(c.cols, fallback='ID')
-    op = c.pick(['>', '<', '>=', '<=', '==', '!='])
-    try:
-        s = c.m.dataset[cl]
-        vals = sorted(set(float(v) for v in s.tolist() if v == v))
-        v = vals[c.k() % len(vals)] if vals else 0.0
-    except Exception:
-        v = 1.0
-    return f'{cl} {op} {v!r}'
+    def atom():
+        cl = anycol(c)
+        op = c.pick(['>', '<', '>=', '<=', '==', '!='])
+        return f'{cl} {op} {col_value(c, cl)!r}'
+
+    form = c.k() % 5
+    if form == 3:
+        return f'{atom()} and {atom()}'
+    if form == 4:
+        return f'{atom()} or not ({atom()})'
+    return atom()
 
 
 def new_name(*stems):
@@ -336,9 +387,10 @@ def new_name(*stems):
 
 
 def newdf(c):
-    """a DataFrame for set_dataset derived from the current one"""
+    """the documented forms of set_dataset's path_or_df: a DataFrame derived from the current one (copy, fewer
+    rows, extra column, fewer columns, changed dtype) or a path (str / Path) to a csv file written to scratch"""
     df = c.m.dataset
-    k = c.k() % 4
+    k = c.k() % 7
     if df is None:
         import pandas as pd
 
@@ -351,7 +403,24 @@ def newdf(c):
         d = df.copy()
         d['NEWCOL'] = 1.0
         return d
-    return df.iloc[:, : max(2, df.shape[1] - 1)].copy()
+    if k == 3:
+        return df.iloc[:, : max(2, df.shape[1] - 1)].copy()
+    if k == 4:
+        d = df.copy()
+        nm = d.columns[-1]
+        try:
+            d[nm] = d[nm].astype('float64')
+        except Exception:
+            pass
+        return d
+    os.makedirs(c.scratch, exist_ok=True)
+    path = os.path.join(c.scratch, f'data{k}.csv')
+    df.to_csv(path, index=False)
+    if k == 5:
+        return path
+    from pathlib import Path
+
+    return Path(path)
 
 
 # ---- synthetic results ------------------------------------------------------------------------
@@ -576,7 +645,7 @@ E('add_cmt', **T)
 E('add_time_after_dose', **T)
 E('bin_observations', nbins=num(1, 2, 4, 7))
 E('check_dataset')
-E('drop_columns', **T, column_names=str_or_list(cols_(3)))
+E('drop_columns', **T, column_names=str_or_list(anycols(3)))
 E('drop_dropped_columns', **T)
 def _dropped_first(c):
     try:
@@ -606,12 +675,31 @@ E('get_observations')
 E('list_time_varying_covariates')
 E('load_dataset', **T)
 E('unload_dataset', **T)
-E('remove_loq_data', **T, lloq=opt(num(0.5, 10.0, 20.0, 'LLOQ')), uloq=opt(num(30.0, 1000.0), 2), blq=opt(col, 2), alq=opt(col, 2), keep=num(0, 1, 2))
-E('set_covariates', **T, covariates=covs_(3))
+LOQ = lambda *nums: (lambda c: c.pick(list(nums) + [anycol(c), 'LLOQ']))  # noqa: E731  float or column name
+E('remove_loq_data', **T, lloq=opt(LOQ(0.5, 10.0, 20.0), 3), uloq=opt(LOQ(30.0, 1000.0), 2), blq=opt(anycol, 2), alq=opt(anycol, 2), keep=num(0, 1, 2, None))
+E('set_covariates', **T, covariates=anycols(3))
 E('set_dataset', **T, path_or_df=newdf)
-E('set_dvid', **T, name=col)
-E('set_lloq_data', **T, value=num(0, 0.5, '0', 'LLOQ/2'), lloq=opt(num(0.5, 10.0, 20.0)), blq=opt(col, 2))
-E('set_reference_values', **T, refs=lambda c: {n: float(1 + c.k() % 70) for n in c.some(c.covs, 2, fallback='WGT')})
+E('set_dvid', **T, name=anycol)
+def _lloq_value(c):
+    from pharmpy.basic import Expr
+
+    dv = next((ci.name for ci in c.m.datainfo if ci.type == 'dv'), 'DV')
+    return c.pick([0, 0.5, 5, '0', f'{dv}/2', 'LLOQ/2', Expr.symbol(dv) / 2, Expr.integer(1)])
+
+
+E('set_lloq_data', **T, value=_lloq_value, lloq=opt(LOQ(0.5, 10.0, 20.0), 3), blq=opt(anycol, 2))
+def _refs(c):
+    """column -> reference value over all column roles; the documented special case (dose columns: only dosing
+    records are replaced) is drawn every other time"""
+    keys = anycols(3)(c)
+    if c.k() % 2 == 0:
+        dose = [ci.name for ci in c.m.datainfo if ci.type == 'dose']
+        if dose and dose[0] not in keys:
+            keys = (keys + dose[:1]) if c.k() % 2 else (dose[:1] + keys)
+    return {n: c.pick([float(1 + c.k() % 70), int(1 + c.k() % 9), col_value(c, n)]) for n in keys}
+
+
+E('set_reference_values', **T, refs=_refs)
 E('translate_nmtran_time', **T)
 E('omit_data', first='dataset_or_model', consume=2, group=lambda c: c.pick(['ID'] + c.cols[:1]))
 E('resample_data', first='dataset_or_model', consume=2, group=const('ID'), resamples=num(1, 2), replace=lambda c: bool(c.k() % 2), stratify=opt(cov, 2))
